@@ -48,9 +48,11 @@ def impl_batch(case):
                 Pm = to_np(it["P"])
                 prof = pu.StrictProfile.of(Pm)
                 if it["gen"] == "uniform":
-                    g = dg.UniformValuationProfileGenerator(high=it["b"], low=it["a"], seed=it["seed"])
+                    sd = np.int64(it["seed"]) if it["seed"] % 2 == 1 else it["seed"]       # odd seeds arrive as numpy integers
+                    g = dg.UniformValuationProfileGenerator(high=it["b"], low=it["a"], seed=sd)
                 else:
-                    g = dg.NormalValuationProfileGenerator(mean=it["a"], variance=it["b"], seed=it["seed"])
+                    sd = np.int32(it["seed"]) if it["seed"] % 2 == 1 else it["seed"]
+                    g = dg.NormalValuationProfileGenerator(mean=it["a"], variance=it["b"], seed=sd)
                 v1 = np.asarray(g.generate(prof))
                 v2 = np.asarray(g.generate(prof))
                 # the draws, re-drawn from the same seed with the same numpy calls
